@@ -1,4 +1,4 @@
 CONSTANTS MaxBases = 2  MaxRetries = 3  MaxFail = 4  Guard = "all"  AtomicFence = TRUE  Variant = "RetryPermanent"
 SPECIFICATION Spec
-INVARIANTS TypeOK BodyIntact AttemptsBounded SuccessHonest Fallback406 FailoverInOrder GiveUpRule MinAttempts ResponseEncodingOffered
+INVARIANTS TypeOK BodyIntact SourceFaultFails AttemptsBounded SuccessHonest Fallback406 FailoverInOrder GiveUpRule MinAttempts ResponseEncodingOffered
 CHECK_DEADLOCK FALSE
